@@ -62,6 +62,9 @@ func RecordLines(g int, noKey bool) []string {
 		fmt.Sprintf("+wrr.example.com,%s,%d,,,2", ip(22), t),
 		fmt.Sprintf("+wrr.example.com,%s,%d,,,3", ip(23), t),
 	}
+	for i := 0; i < 24; i++ {
+		l = append(l, fmt.Sprintf("'big.example.com,gen=%d record %02d padded to make the set larger than one small UDP datagram,%d,,", g, i, t))
+	}
 	if !noKey {
 		l = append(l, fmt.Sprintf("+%s,%s,%d,,", ValidationName, ip(10), t))
 	}
@@ -125,7 +128,11 @@ var Queries = []Q{
 	{"www.example.com.", dns.TypeA, 1001},  // unusual class (answered like IN)
 	{"1www.example.com.", dns.TypeA, 100},  // NXDOMAIN; its cache key text collides with the previous entry's
 	{"mx.example.com.", dns.TypeAAAA, 0},   // positive v6
+	{"big.example.com.", dns.TypeTXT, 0},   // 24 TXT records: larger than 512 and 1232 bytes
 }
+
+// BigQuery is the index of the query whose answer does not fit a small UDP buffer.
+const BigQuery = 20
 
 // Weighted tells whether the answer to query shape qi is subject to weighted selection.
 func Weighted(qi int) bool { return Queries[qi%len(Queries)].Name == "wrr.example.com." }
